@@ -403,6 +403,34 @@ def conditioning(V, offset=None):
     return max(1.0, off / thin / 1000.0)
 
 
+def resize_probe(p, fresh):
+    """The measures are asked for, the solid is resized (volume x 8) and they are asked for again: they must be the measures of the solid as
+    it is NOW, i.e. those of a freshly constructed solid on the current vertices (fresh: callable building it).  Returns a list of
+    problems (empty when consistent).  Polytri's recorded absolute thresholds can make the resized general polyhedron raise: not judged."""
+    import numpy as np
+    probs = []
+    try:
+        v0 = float(p.volume)
+        p.volume = 8.0 * v0
+        q = fresh(p)
+    except Exception:  # noqa: BLE001
+        return probs
+    R = float(np.max(np.linalg.norm(np.asarray(p.vertices, float), axis=1))) + 1e-300
+
+    def get(o, n):
+        try:
+            return "ok", (np.sort(np.asarray(o.get_face_area(), float)) if n == "face_areas" else np.asarray(getattr(o, n), float))
+        except Exception as e:  # noqa: BLE001
+            return type(e).__name__, None
+    for n, k in (("volume", 3), ("surface_area", 2), ("face_areas", 2), ("centroid", 1), ("inertia_tensor", 5)):
+        (sa, a), (sb, b) = get(p, n), get(q, n)
+        if sb != "ok":
+            continue
+        if sa != "ok" or a.shape != b.shape or not np.all(np.abs(a - b) <= 1e-9 * R ** k):
+            probs.append("%s after volume was multiplied by 8: %s, a fresh solid on the same vertices reports %s" % (n, None if a is None else np.round(a, 9).ravel()[:6].tolist(), np.round(b, 9).ravel()[:6].tolist()))
+    return probs
+
+
 def face_area_forms(p, all_areas):
     """get_face_area has several call forms (None / one index / a sequence of indices; ConvexPolyhedron also "total"): they must select
     from the per-face list.  Returns a list of problems (empty when consistent).  The sequence is a reversed, strided selection, so that a
